@@ -362,8 +362,23 @@ impl ProcfsHandle {
         // NOTE: There is technically a race here, but it relies the target path
         //       being a magic-link and then another thing being mounted on top.
         //       This is the same race as below.
-        if self.readlink(base, subpath).is_err() {
-            return self.open(base, subpath, oflags).map(File::from);
+        match self.readlink(base, subpath) {
+            Ok(_) => (),
+            // readlinkat(2) on a non-symlink gives ENOENT (for our empty-path
+            // lookup) or EINVAL, and a missing path gives ENOENT as well.
+            // Only in those cases is the target "not a symlink".
+            Err(err)
+                if matches!(
+                    err.kind(),
+                    ErrorKind::OsError(Some(libc::ENOENT)) | ErrorKind::OsError(Some(libc::EINVAL))
+                ) =>
+            {
+                return self.open(base, subpath, oflags).map(File::from);
+            }
+            // Any other failure tells us nothing about the type of the
+            // target, so we must not silently switch to a no-follow open
+            // (which would return the symlink itself for O_PATH).
+            Err(err) => return Err(err),
         }
 
         // Get a no-follow handle to the parent of the magic-link.
